@@ -206,8 +206,7 @@ variable {groups : List (Nat × List Acct)} {V : View} {x : Acct}
 theorem GV.later_send {cons rest : List Stanza} {c' : Client} {st : Stanza} {k : Nat}
     (h : GV groups V) (hq : V.outb x = cons ++ rest) (hcons : ∀ st' ∈ cons, PlainDown st')
     (hpk : ∀ key, (lookup (V.cl x).peerSK key).isSome = true → (lookup c'.peerSK key).isSome = true)
-    (hown : ∀ g, (lookup c'.ownSK g).isSome = true → (lookup (V.cl x).ownSK g).isSome = true)
-    (hst : ∀ g y, cls (isDistUp g y) (needsUp g y) st ≠ some true) :
+    (hown : ∀ g, (lookup c'.ownSK g).isSome = true → (lookup (V.cl x).ownSK g).isSome = true) :
     GV groups ((V.popOut x rest).cstep x c' [st] k) := by
   intro a g hown' y hy hya
   have hclx : ((V.popOut x rest).cstep x c' [st] k).cl x = c' := by simp [View.cstep]
